@@ -8,6 +8,7 @@
 From Coq Require Import Bool NArith ZArith List Lia Permutation ZifyN ZifyNat ZifyBool.
 From SK Require Import Base.Prelude Base.F64 Codec.Codec Spec.Bins Spec.BinsProofs Wire.Proto.
 From SK Require Codec.CodecProofs Codec.Varfloat Codec.VarfloatProofs.
+From SK Require Store.Dense Store.DenseProofs.
 Import ListNotations.
 Local Open Scope Z_scope.
 
@@ -543,4 +544,440 @@ Lemma enc_len_length fld p : (2 + length p <= length (pb_enc_len fld p) <= 20 + 
 Proof.
   unfold pb_enc_len. rewrite !app_length.
   pose proof (enc_tag_length fld WT_LEN). pose proof (enc_varint_length (N.of_nat (length p))). lia.
+Qed.
+
+(* ================================================================== *)
+(** * Part C: the streaming writer read back by the parser             *)
+(* ================================================================== *)
+Lemma fields_loop_nil {A : Type} (step : A -> N -> pb_val -> option A) fuel a :
+  pb_fields_loop step fuel [] a = Some a.
+Proof. destruct fuel; reflexivity. Qed.
+Lemma fields_loop_cons {A : Type} (step : A -> N -> pb_val -> option A) f b bs a :
+  pb_fields_loop step (S f) (b :: bs) a =
+  match pb_dec_field (b :: bs) with
+  | None => None
+  | Some (fld, val, r) =>
+    match step a fld val with
+    | None => None
+    | Some a' => pb_fields_loop step f r a'
+    end
+  end.
+Proof. reflexivity. Qed.
+Lemma fields_loop_step {A : Type} (step : A -> N -> pb_val -> option A) fuel fb rest (a a' : A) fld val :
+  fb <> [] -> pb_dec_field (fb ++ rest) = Some (fld, val, rest) -> step a fld val = Some a' ->
+  pb_fields_loop step (S fuel) (fb ++ rest) a = pb_fields_loop step fuel rest a'.
+Proof.
+  intros Hne Hd Hs. destruct fb as [|b fb]; [contradiction|]. cbn [app] in *.
+  rewrite fields_loop_cons, Hd, Hs. reflexivity.
+Qed.
+
+Lemma app_nonnil_l {T : Type} (l m : list T) : l <> [] -> l ++ m <> [].
+Proof. destruct l; [contradiction|discriminate]. Qed.
+Lemma length_pos_of_nonnil {T : Type} (l : list T) : l <> [] -> (1 <= length l)%nat.
+Proof. destruct l; [contradiction|cbn [length]; lia]. Qed.
+
+(* a message written as a sequence of builder calls [ops], each emitting one field [enc op] that the
+   step function folds as [app_op] *)
+Section FoldOps.
+Context {A O : Type}.
+Variable step : A -> N -> pb_val -> option A.
+Variable enc : O -> list byte.
+Variable app_op : A -> O -> A.
+Variable P : O -> Prop.
+Hypothesis Hstep : forall op a rest, P op ->
+  enc op <> [] /\
+  exists fld val, pb_dec_field (enc op ++ rest) = Some (fld, val, rest) /\ step a fld val = Some (app_op a op).
+
+Lemma fold_ops_loop : forall ops a fuel,
+  Forall P ops -> (length (concat (map enc ops)) <= fuel)%nat ->
+  pb_fields_loop step fuel (concat (map enc ops)) a = Some (fold_left app_op ops a).
+Proof.
+  induction ops as [|op ops IH]; intros a fuel HP Hf.
+  - apply fields_loop_nil.
+  - inversion HP as [|x l Hop Hops]; subst. cbn [map concat fold_left] in *.
+    destruct (Hstep op a (concat (map enc ops)) Hop) as [Hne [fld [val [Hd Hs]]]].
+    rewrite app_length in Hf. pose proof (length_pos_of_nonnil _ Hne) as Hl.
+    destruct fuel as [|fuel]; [lia|].
+    rewrite (fields_loop_step step fuel _ _ a _ fld val Hne Hd Hs). apply IH; [exact Hops|lia].
+Qed.
+Lemma fold_ops ops a :
+  Forall P ops -> pb_fold_fields step (concat (map enc ops)) a = Some (fold_left app_op ops a).
+Proof. intros HP. unfold pb_fold_fields. apply fold_ops_loop; [exact HP|lia]. Qed.
+End FoldOps.
+
+Lemma field_ok_small fld : 1 <= fld <= 15 -> field_ok fld.
+Proof. unfold field_ok, pb_max_field. lia. Qed.
+
+(* ---- map entry ---- *)
+Inductive entry_op := EKey (k : Z) | EVal (v : f64).
+Definition enc_entry_op (op : entry_op) : list byte :=
+  match op with
+  | EKey k => pb_enc_tag 1 WT_VARINT ++ pb_enc_varint (pb_zigzag k)
+  | EVal v => pb_enc_tag 2 WT_I64 ++ pb_enc_double v
+  end.
+Definition entry_apply (kv : Z * f64) (op : entry_op) : Z * f64 :=
+  match op with EKey k => (k, snd kv) | EVal v => (fst kv, v) end.
+Definition entry_op_ok (op : entry_op) : Prop := match op with EKey k => idx_ok k | EVal _ => True end.
+
+Lemma zigzag32_lt64 k : idx_ok k -> pb_zigzag k < W64.
+Proof. intros H. pose proof (zigzag32_lt k H). unfold W64. lia. Qed.
+
+Lemma entry_step_ok op kv rest : entry_op_ok op ->
+  enc_entry_op op <> [] /\
+  exists fld val, pb_dec_field (enc_entry_op op ++ rest) = Some (fld, val, rest) /\
+                  entry_step kv fld val = Some (entry_apply kv op).
+Proof.
+  destruct op as [k|v]; intros H; cbn [enc_entry_op entry_op_ok] in *.
+  - split; [apply app_nonnil_l, enc_varint_nonnil|].
+    exists 1, (PVarint (pb_zigzag k)). split.
+    + rewrite <- app_assoc. apply dec_field_varint; [apply field_ok_small; lia|apply zigzag32_lt64; exact H].
+    + unfold entry_step. cbv beta iota. rewrite (zigzag32_roundtrip k H). reflexivity.
+  - split; [apply app_nonnil_l, enc_varint_nonnil|].
+    exists 2, (PI64 (bits_of_f64 v)). split.
+    + rewrite <- app_assoc. apply dec_field_double. apply field_ok_small; lia.
+    + unfold entry_step. cbv beta iota. rewrite f64_of_bits_of_f64. reflexivity.
+Qed.
+
+Theorem parse_entry_stream k v : idx_ok k -> parse_entry (stream_entry k v) = Some (k, v).
+Proof.
+  intros H. unfold parse_entry.
+  assert (E : stream_entry k v = concat (map enc_entry_op [EKey k; EVal v])).
+  { unfold stream_entry. cbn [map concat enc_entry_op]. rewrite app_nil_r, <- !app_assoc. reflexivity. }
+  rewrite E. rewrite (fold_ops entry_step enc_entry_op entry_apply entry_op_ok).
+  - reflexivity.
+  - intros op a rest. apply entry_step_ok.
+  - constructor; [exact H|constructor; [exact I|constructor]].
+Qed.
+Lemma stream_entry_length k v : (length (stream_entry k v) <= 38)%nat.
+Proof.
+  unfold stream_entry. rewrite !app_length, enc_double_length.
+  pose proof (enc_tag_length 1 WT_VARINT). pose proof (enc_tag_length 2 WT_I64).
+  pose proof (enc_varint_length (pb_zigzag k)). lia.
+Qed.
+
+(* ---- Store ---- *)
+Definition store_apply (a : store_acc) (op : store_op) : store_acc :=
+  match op with
+  | OpBin k v => {| sa_bins := (k, v) :: sa_bins a; sa_counts := sa_counts a; sa_off := sa_off a |}
+  | OpCount v => {| sa_bins := sa_bins a; sa_counts := v :: sa_counts a; sa_off := sa_off a |}
+  | OpOffset o => {| sa_bins := sa_bins a; sa_counts := sa_counts a; sa_off := o |}
+  end.
+Definition store_op_ok (op : store_op) : Prop :=
+  match op with OpBin k _ => idx_ok k | OpCount _ => True | OpOffset o => idx_ok o end.
+
+Lemma store_step_ok op a rest : store_op_ok op ->
+  stream_store_op op <> [] /\
+  exists fld val, pb_dec_field (stream_store_op op ++ rest) = Some (fld, val, rest) /\
+                  store_step a fld val = Some (store_apply a op).
+Proof.
+  destruct op as [k v|v|o]; intros H; cbn [stream_store_op store_op_ok] in *.
+  - split; [unfold pb_enc_len; apply app_nonnil_l, enc_varint_nonnil|].
+    exists 1, (PLen (stream_entry k v)). split.
+    + apply dec_field_len; [apply field_ok_small; lia|].
+      pose proof (stream_entry_length k v). unfold W64. lia.
+    + unfold store_step. cbv beta iota. rewrite (parse_entry_stream k v H). reflexivity.
+  - split; [apply app_nonnil_l, enc_varint_nonnil|].
+    exists 2, (PI64 (bits_of_f64 v)). split.
+    + rewrite <- app_assoc. apply dec_field_double. apply field_ok_small; lia.
+    + unfold store_step. cbv beta iota. rewrite f64_of_bits_of_f64. reflexivity.
+  - split; [apply app_nonnil_l, enc_varint_nonnil|].
+    exists 3, (PVarint (pb_zigzag o)). split.
+    + rewrite <- app_assoc. apply dec_field_varint; [apply field_ok_small; lia|apply zigzag32_lt64; exact H].
+    + unfold store_step. cbv beta iota. rewrite (zigzag32_roundtrip o H). reflexivity.
+Qed.
+
+(* the general form: any sequence of builder calls, into any accumulator *)
+Theorem parse_store_ops ops a :
+  Forall store_op_ok ops ->
+  parse_store_acc a (stream_store_ops ops) = Some (fold_left store_apply ops a).
+Proof.
+  intros H. unfold parse_store_acc, stream_store_ops.
+  apply (fold_ops store_step stream_store_op store_apply store_op_ok); [|exact H].
+  intros op a' rest. apply store_step_ok.
+Qed.
+
+Definition store_ok (p : pb_store) : Prop :=
+  Forall (fun kv => idx_ok (fst kv)) (bin_counts p) /\ idx_ok (contiguous_offset p).
+
+Lemma store_ops_of_ok p : store_ok p -> Forall store_op_ok (store_ops_of p).
+Proof.
+  intros [Hk Ho]. unfold store_ops_of. apply Forall_app. split; [|apply Forall_app; split].
+  - apply Forall_forall. intros op Hin. apply in_map_iff in Hin. destruct Hin as [kv [<- Hin]].
+    cbn [store_op_ok]. rewrite Forall_forall in Hk. exact (Hk kv Hin).
+  - apply Forall_forall. intros op Hin. apply in_map_iff in Hin. destruct Hin as [v [<- _]]. exact I.
+  - destruct (store_writes_offset p); [constructor; [exact Ho|constructor]|constructor].
+Qed.
+
+Lemma fold_bins l : forall a,
+  fold_left store_apply (map (fun kv => OpBin (fst kv) (snd kv)) l) a =
+  {| sa_bins := rev l ++ sa_bins a; sa_counts := sa_counts a; sa_off := sa_off a |}.
+Proof.
+  induction l as [|[k v] l IH]; intros a; [destruct a; reflexivity|].
+  cbn [map fold_left fst snd]. rewrite IH. cbn [store_apply sa_bins sa_counts sa_off rev].
+  rewrite <- app_assoc. reflexivity.
+Qed.
+Lemma fold_counts l : forall a,
+  fold_left store_apply (map OpCount l) a =
+  {| sa_bins := sa_bins a; sa_counts := rev l ++ sa_counts a; sa_off := sa_off a |}.
+Proof.
+  induction l as [|v l IH]; intros a; [destruct a; reflexivity|].
+  cbn [map fold_left]. rewrite IH. cbn [store_apply sa_bins sa_counts sa_off rev].
+  rewrite <- app_assoc. reflexivity.
+Qed.
+(* reading [p]'s stream into the accumulator [a]: repeated fields are appended, the offset is
+   overwritten when written *)
+Lemma fold_store_ops_of p a :
+  store_finish (fold_left store_apply (store_ops_of p) a) =
+  {| bin_counts := rev (sa_bins a) ++ bin_counts p;
+     contiguous_counts := rev (sa_counts a) ++ contiguous_counts p;
+     contiguous_offset := if store_writes_offset p then contiguous_offset p else sa_off a |}.
+Proof.
+  unfold store_ops_of. rewrite !fold_left_app, fold_bins, fold_counts.
+  destruct (store_writes_offset p); cbn [fold_left store_apply sa_bins sa_counts sa_off];
+    unfold store_finish; cbn [sa_bins sa_counts sa_off];
+    rewrite !rev_app_distr, !rev_involutive; reflexivity.
+Qed.
+Lemma store_result p : store_finish (fold_left store_apply (store_ops_of p) store_acc0) = p.
+Proof.
+  rewrite fold_store_ops_of. cbn [store_acc0 sa_bins sa_counts sa_off rev app].
+  destruct p as [bc cc o]. unfold store_writes_offset. cbn [bin_counts contiguous_counts contiguous_offset].
+  destruct cc as [|c cc]; [|reflexivity].
+  destruct (Z.eqb_spec o 0) as [->|Hn]; reflexivity.
+Qed.
+
+Theorem parse_store_stream p : store_ok p -> parse_store (stream_store p) = Some p.
+Proof.
+  intros H. unfold parse_store, stream_store.
+  rewrite (parse_store_ops (store_ops_of p) store_acc0 (store_ops_of_ok p H)).
+  cbn [option_map]. rewrite store_result. reflexivity.
+Qed.
+
+(* sizes, for the nested length prefix *)
+Lemma stream_store_op_length op : (length (stream_store_op op) <= 60)%nat.
+Proof.
+  destruct op as [k v|v|o]; cbn [stream_store_op].
+  - pose proof (enc_len_length 1 (stream_entry k v)). pose proof (stream_entry_length k v). lia.
+  - rewrite app_length, enc_double_length. pose proof (enc_tag_length 2 WT_I64). lia.
+  - rewrite app_length. pose proof (enc_tag_length 3 WT_VARINT). pose proof (enc_varint_length (pb_zigzag o)). lia.
+Qed.
+Lemma stream_store_ops_length ops : (length (stream_store_ops ops) <= 60 * length ops)%nat.
+Proof.
+  unfold stream_store_ops. induction ops as [|op ops IH]; [cbn; lia|].
+  cbn [map concat length]. rewrite app_length. pose proof (stream_store_op_length op). lia.
+Qed.
+Definition store_small (p : pb_store) : Prop :=
+  N.of_nat (length (bin_counts p)) < 2147483648 /\ N.of_nat (length (contiguous_counts p)) < 2147483648.
+Lemma stream_store_length p : store_small p -> N.of_nat (length (stream_store p)) < W64.
+Proof.
+  intros [H1 H2]. unfold stream_store. pose proof (stream_store_ops_length (store_ops_of p)) as H.
+  assert (Hl : (length (store_ops_of p) <= length (bin_counts p) + length (contiguous_counts p) + 1)%nat).
+  { unfold store_ops_of. rewrite !app_length, !map_length. destruct (store_writes_offset p); cbn [length]; lia. }
+  unfold W64. lia.
+Qed.
+
+(* ---- IndexMapping ---- *)
+Inductive mapping_op := MGamma (v : f64) | MOffset (v : f64) | MInterp (n : N).
+Definition enc_mapping_op (op : mapping_op) : list byte :=
+  match op with
+  | MGamma v => pb_enc_tag 1 WT_I64 ++ pb_enc_double v
+  | MOffset v => pb_enc_tag 2 WT_I64 ++ pb_enc_double v
+  | MInterp n => pb_enc_tag 3 WT_VARINT ++ pb_enc_varint n
+  end.
+Definition mapping_apply (m : pb_mapping) (op : mapping_op) : pb_mapping :=
+  match op with
+  | MGamma v => {| pm_gamma := v; pm_offset := pm_offset m; pm_interp := pm_interp m |}
+  | MOffset v => {| pm_gamma := pm_gamma m; pm_offset := v; pm_interp := pm_interp m |}
+  | MInterp n => {| pm_gamma := pm_gamma m; pm_offset := pm_offset m; pm_interp := n |}
+  end.
+Definition mapping_op_ok (op : mapping_op) : Prop := match op with MInterp n => n < 4294967296 | _ => True end.
+Definition mapping_ops_of (m : pb_mapping) : list mapping_op :=
+  [MGamma (pm_gamma m); MOffset (pm_offset m)] ++ (if pm_interp m =? 0 then [] else [MInterp (pm_interp m)]).
+
+Lemma land_u32 x : x < 4294967296 -> N.land x 4294967295 = x.
+Proof. intros H. change 4294967295 with (N.ones 32). rewrite N.land_ones. apply N.mod_small. exact H. Qed.
+
+Lemma mapping_step_ok op m rest : mapping_op_ok op ->
+  enc_mapping_op op <> [] /\
+  exists fld val, pb_dec_field (enc_mapping_op op ++ rest) = Some (fld, val, rest) /\
+                  mapping_step m fld val = Some (mapping_apply m op).
+Proof.
+  destruct op as [v|v|n]; intros H; cbn [enc_mapping_op mapping_op_ok] in *.
+  - split; [apply app_nonnil_l, enc_varint_nonnil|].
+    exists 1, (PI64 (bits_of_f64 v)). split.
+    + rewrite <- app_assoc. apply dec_field_double. apply field_ok_small; lia.
+    + unfold mapping_step. cbv beta iota. rewrite f64_of_bits_of_f64. reflexivity.
+  - split; [apply app_nonnil_l, enc_varint_nonnil|].
+    exists 2, (PI64 (bits_of_f64 v)). split.
+    + rewrite <- app_assoc. apply dec_field_double. apply field_ok_small; lia.
+    + unfold mapping_step. cbv beta iota. rewrite f64_of_bits_of_f64. reflexivity.
+  - split; [apply app_nonnil_l, enc_varint_nonnil|].
+    exists 3, (PVarint n). split.
+    + rewrite <- app_assoc. apply dec_field_varint; [apply field_ok_small; lia|unfold W64; lia].
+    + unfold mapping_step. cbv beta iota. rewrite (land_u32 n H). reflexivity.
+Qed.
+
+Lemma stream_mapping_ops m : stream_mapping m = concat (map enc_mapping_op (mapping_ops_of m)).
+Proof.
+  unfold stream_mapping, mapping_ops_of. destruct (pm_interp m =? 0);
+    cbn [app map concat enc_mapping_op]; rewrite ?app_nil_r, <- ?app_assoc; reflexivity.
+Qed.
+Definition mapping_ok (m : pb_mapping) : Prop := pm_interp m < 4294967296.
+Lemma mapping_ops_of_ok m : mapping_ok m -> Forall mapping_op_ok (mapping_ops_of m).
+Proof.
+  intros H. unfold mapping_ops_of.
+  destruct (pm_interp m =? 0); cbn [app]; (constructor; [exact I|]); (constructor; [exact I|]);
+    [constructor|constructor; [exact H|constructor]].
+Qed.
+Theorem parse_mapping_acc_stream m0 m :
+  mapping_ok m ->
+  parse_mapping_acc m0 (stream_mapping m) = Some (fold_left mapping_apply (mapping_ops_of m) m0).
+Proof.
+  intros H. unfold parse_mapping_acc. rewrite stream_mapping_ops.
+  apply (fold_ops mapping_step enc_mapping_op mapping_apply mapping_op_ok); [|apply mapping_ops_of_ok; exact H].
+  intros op a rest. apply mapping_step_ok.
+Qed.
+Lemma mapping_result m : fold_left mapping_apply (mapping_ops_of m) pb_mapping_default = m.
+Proof.
+  destruct m as [g o i]. unfold mapping_ops_of. cbn [pm_gamma pm_offset pm_interp].
+  destruct (N.eqb_spec i 0) as [->|Hn]; reflexivity.
+Qed.
+Theorem parse_mapping_stream m : mapping_ok m -> parse_mapping (stream_mapping m) = Some m.
+Proof.
+  intros H. unfold parse_mapping. rewrite (parse_mapping_acc_stream _ m H), mapping_result. reflexivity.
+Qed.
+Lemma stream_mapping_length m : (length (stream_mapping m) <= 56)%nat.
+Proof.
+  unfold stream_mapping. rewrite !app_length, !enc_double_length.
+  pose proof (enc_tag_length 1 WT_I64). pose proof (enc_tag_length 2 WT_I64).
+  destruct (pm_interp m =? 0); [cbn [length]; lia|].
+  rewrite app_length. pose proof (enc_tag_length 3 WT_VARINT). pose proof (enc_varint_length (pm_interp m)). lia.
+Qed.
+
+(* ---- DDSketch ---- *)
+Inductive sketch_op := KMapping (m : pb_mapping) | KZero (v : f64) | KNeg (p : pb_store) | KPos (p : pb_store).
+Definition enc_sketch_op (op : sketch_op) : list byte :=
+  match op with
+  | KMapping m => pb_enc_len 1 (stream_mapping m)
+  | KZero v => pb_enc_tag 4 WT_I64 ++ pb_enc_double v
+  | KNeg p => pb_enc_len 3 (stream_store p)
+  | KPos p => pb_enc_len 2 (stream_store p)
+  end.
+Definition sketch_apply (a : sketch_acc) (op : sketch_op) : sketch_acc :=
+  match op with
+  | KMapping m =>
+    {| ka_mapping := Some (fold_left mapping_apply (mapping_ops_of m) (or_default pb_mapping_default (ka_mapping a)));
+       ka_pos := ka_pos a; ka_neg := ka_neg a; ka_zero := ka_zero a |}
+  | KZero v => {| ka_mapping := ka_mapping a; ka_pos := ka_pos a; ka_neg := ka_neg a; ka_zero := v |}
+  | KNeg p =>
+    {| ka_mapping := ka_mapping a; ka_pos := ka_pos a;
+       ka_neg := Some (fold_left store_apply (store_ops_of p) (or_default store_acc0 (ka_neg a)));
+       ka_zero := ka_zero a |}
+  | KPos p =>
+    {| ka_mapping := ka_mapping a;
+       ka_pos := Some (fold_left store_apply (store_ops_of p) (or_default store_acc0 (ka_pos a)));
+       ka_neg := ka_neg a; ka_zero := ka_zero a |}
+  end.
+Definition sketch_op_ok (op : sketch_op) : Prop :=
+  match op with
+  | KMapping m => mapping_ok m
+  | KZero _ => True
+  | KNeg p | KPos p => store_ok p /\ store_small p
+  end.
+
+Lemma sketch_step_ok op a rest : sketch_op_ok op ->
+  enc_sketch_op op <> [] /\
+  exists fld val, pb_dec_field (enc_sketch_op op ++ rest) = Some (fld, val, rest) /\
+                  sketch_step a fld val = Some (sketch_apply a op).
+Proof.
+  destruct op as [m|v|p|p]; intros H; cbn [enc_sketch_op sketch_op_ok] in *.
+  - split; [unfold pb_enc_len; apply app_nonnil_l, enc_varint_nonnil|].
+    exists 1, (PLen (stream_mapping m)). split.
+    + apply dec_field_len; [apply field_ok_small; lia|].
+      pose proof (stream_mapping_length m). unfold W64. lia.
+    + unfold sketch_step. cbv beta iota. rewrite (parse_mapping_acc_stream _ m H). reflexivity.
+  - split; [apply app_nonnil_l, enc_varint_nonnil|].
+    exists 4, (PI64 (bits_of_f64 v)). split.
+    + rewrite <- app_assoc. apply dec_field_double. apply field_ok_small; lia.
+    + unfold sketch_step. cbv beta iota. rewrite f64_of_bits_of_f64. reflexivity.
+  - destruct H as [Hok Hsm]. split; [unfold pb_enc_len; apply app_nonnil_l, enc_varint_nonnil|].
+    exists 3, (PLen (stream_store p)). split.
+    + apply dec_field_len; [apply field_ok_small; lia|apply stream_store_length; exact Hsm].
+    + unfold sketch_step. cbv beta iota. unfold stream_store.
+      rewrite (parse_store_ops (store_ops_of p) _ (store_ops_of_ok p Hok)). reflexivity.
+  - destruct H as [Hok Hsm]. split; [unfold pb_enc_len; apply app_nonnil_l, enc_varint_nonnil|].
+    exists 2, (PLen (stream_store p)). split.
+    + apply dec_field_len; [apply field_ok_small; lia|apply stream_store_length; exact Hsm].
+    + unfold sketch_step. cbv beta iota. unfold stream_store.
+      rewrite (parse_store_ops (store_ops_of p) _ (store_ops_of_ok p Hok)). reflexivity.
+Qed.
+
+Definition opt_list {T U : Type} (f : T -> U) (o : option T) : list U := match o with Some a => [f a] | None => [] end.
+Definition sketch_ops_of (s : pb_sketch) : list sketch_op :=
+  opt_list KMapping (ps_mapping s) ++ [KZero (ps_zero s)] ++ opt_list KNeg (ps_neg s) ++ opt_list KPos (ps_pos s).
+Lemma stream_sketch_ops s : stream_sketch s = concat (map enc_sketch_op (sketch_ops_of s)).
+Proof.
+  destruct s as [[m|] [p|] [n|] z]; unfold stream_sketch, sketch_ops_of;
+    cbn [ps_mapping ps_pos ps_neg ps_zero opt_list stream_opt app map concat enc_sketch_op];
+    rewrite ?app_nil_r, <- ?app_assoc; reflexivity.
+Qed.
+Definition opt_ok {T : Type} (P : T -> Prop) (o : option T) : Prop := match o with Some a => P a | None => True end.
+Definition sketch_ok (s : pb_sketch) : Prop :=
+  opt_ok mapping_ok (ps_mapping s) /\
+  opt_ok (fun p => store_ok p /\ store_small p) (ps_pos s) /\
+  opt_ok (fun p => store_ok p /\ store_small p) (ps_neg s).
+Lemma sketch_ops_of_ok s : sketch_ok s -> Forall sketch_op_ok (sketch_ops_of s).
+Proof.
+  intros [Hm [Hp Hn]]. destruct s as [[m|] [p|] [n|] z]; unfold sketch_ops_of;
+    cbn [ps_mapping ps_pos ps_neg ps_zero opt_list app opt_ok] in *;
+    repeat (apply Forall_cons; [first [exact Hm|exact Hp|exact Hn|exact I]|]); apply Forall_nil.
+Qed.
+Lemma sketch_result s : sketch_finish (fold_left sketch_apply (sketch_ops_of s) sketch_acc0) = s.
+Proof.
+  destruct s as [[m|] [p|] [n|] z]; unfold sketch_ops_of, sketch_finish;
+    cbn [ps_mapping ps_pos ps_neg ps_zero opt_list app fold_left sketch_apply sketch_acc0
+         ka_mapping ka_pos ka_neg ka_zero or_default option_map];
+    rewrite ?mapping_result, ?store_result; reflexivity.
+Qed.
+Theorem parse_sketch_stream s : sketch_ok s -> parse_sketch (stream_sketch s) = Some s.
+Proof.
+  intros H. unfold parse_sketch. rewrite stream_sketch_ops.
+  rewrite (fold_ops sketch_step enc_sketch_op sketch_apply sketch_op_ok).
+  - cbn [option_map]. rewrite sketch_result. reflexivity.
+  - intros op a rest. apply sketch_step_ok.
+  - apply sketch_ops_of_ok. exact H.
+Qed.
+
+(* ================================================================== *)
+(** * Part D: the dense store model (Store/Dense.v)                    *)
+(* ================================================================== *)
+(* DenseStore.ToProto as transcribed in Dense.to_proto_d (weights in Qc), turned into a message by
+   rounding every cell to binary64, is the Layer A form of the store's abstract content. *)
+Theorem dense_to_proto (s : Dense.dense) :
+  DenseProofs.Inv s ->
+  exists r, Dense.to_proto_d s = Some r /\ pb_of_dense_proto r = to_proto_dense (DenseProofs.dabs s).
+Proof.
+  intros I. unfold Dense.to_proto_d. destruct (Dense.is_empty s) eqn:E.
+  - apply DenseProofs.is_empty_true in E. exists None. split; [reflexivity|].
+    rewrite (DenseProofs.dabs_empty s I E). reflexivity.
+  - apply DenseProofs.is_empty_false in E. rewrite (DenseProofs.window_spec s I).
+    eexists. split; [reflexivity|]. unfold to_proto_dense.
+    rewrite (DenseProofs.dabs_min s I E), (DenseProofs.dabs_max s I E). cbn [pb_of_dense_proto].
+    f_equal. rewrite !map_map. apply map_ext. intros k. cbn [snd].
+    rewrite (DenseProofs.get_dabs s k I). reflexivity.
+Qed.
+
+Lemma posb_pos (b : list (Z * W)) : DenseProofs.posb b -> pos b.
+Proof. intros H. unfold pos. apply Forall_forall. intros [k w] Hin. cbn [snd]. exact (H k w Hin). Qed.
+
+(* ToProto then MergeWithProto on the model of the dense store: the content comes back, into an
+   empty receiver and as a merge into any receiver *)
+Theorem dense_proto_roundtrip (s : Dense.dense) r0 :
+  DenseProofs.Inv s -> f64_weights (DenseProofs.dabs s) -> wf r0 = true -> pos r0 ->
+  exists r, Dense.to_proto_d s = Some r /\
+            merge_with_proto [] (pb_of_dense_proto r) = DenseProofs.dabs s /\
+            merge_with_proto r0 (pb_of_dense_proto r) = bmerge r0 (DenseProofs.dabs s).
+Proof.
+  intros I Hf Hr Hpr. destruct (dense_to_proto s I) as [r [E1 E2]]. exists r. split; [exact E1|].
+  rewrite E2. pose proof (DenseProofs.dabs_wf s) as Hwf. pose proof (posb_pos _ (DenseProofs.dabs_pos s I)) as Hp.
+  split; [apply proto_roundtrip_dense|apply merge_dense_into]; assumption.
 Qed.
